@@ -189,13 +189,15 @@ class Proxy(object):
     def __iter__(self):
         try:
             # use remote iterator if it exists
-            yield from self.__getattr__('__iter__')()
+            remote_iterator = self.__getattr__('__iter__')()
         except AttributeError:
             # fallback to indexed based iteration
             try:
                 yield from (self[index] for index in range(sys.maxsize))
             except (StopIteration, IndexError):
                 return
+        else:
+            yield from remote_iterator   # outside the try: an AttributeError raised by the remote iterator itself is the caller's
 
     def _pyroRelease(self):
         """release the connection to the pyro daemon"""
